@@ -342,8 +342,15 @@ func genTemplCase(r *common.Rng) Case {
 	ncp := 2 + r.Intn(2)
 	blockA := pick(r, []string{"skip", "twice", "fast"})
 	blockB := pick(r, []string{"extra", "dst"})
+	// line-level metadata in front of a line, in the label-less form (kept when the section is re-rendered per processor)
+	withMeta := func(line string, num, den int) string {
+		if m, _ := lineMeta(r, num, den); m != "" {
+			return ": " + m + "\n\t" + line
+		}
+		return line
+	}
 	plainOp := func() string {
-		return pick(r, []string{"inc r0", "dec r0", "inc r1", "add r0, r1", "cpy r1, r0", "nop", "clr r1", "mult r0, r1"})
+		return withMeta(pick(r, []string{"inc r0", "dec r0", "inc r1", "add r0, r1", "cpy r1, r0", "nop", "clr r1", "mult r0, r1"}), 1, 8)
 	}
 	var b strings.Builder
 	b.WriteString("%section tsec .romtext iomode:" + mode + "\n\tentry go\ngo:\n")
@@ -356,10 +363,18 @@ func genTemplCase(r *common.Rng) Case {
 	for n := 1 + r.Intn(3); n > 0; n-- {
 		b.WriteString("\t" + plainOp() + "\n")
 	}
-	b.WriteString("{{end}}\n\tmov o0, r0\n")
+	b.WriteString("{{end}}\n")
+	if m, _ := lineMeta(r, 1, 2); m != "" {
+		if r.Bool() {
+			b.WriteString("send: " + m + "\n") // on a label line
+		} else {
+			b.WriteString(": " + m + "\n")
+		}
+	}
+	b.WriteString("\tmov o0, r0\n")
 	useB := r.Bool()
 	if useB {
-		b.WriteString("{{if .Params." + blockB + "}}\n\t" + pick(r, []string{"mov {{.Params." + blockB + "}}, r0", "add r0, {{.Params." + blockB + "}}", "mov o0, {{.Params." + blockB + "}}"}) + "\n{{end}}\n")
+		b.WriteString("{{if .Params." + blockB + "}}\n\t" + withMeta(pick(r, []string{"mov {{.Params."+blockB+"}}, r0", "add r0, {{.Params."+blockB+"}}", "mov o0, {{.Params."+blockB+"}}"}), 1, 3) + "\n{{end}}\n")
 	}
 	b.WriteString("\t" + pick(r, []string{"j again", "jmp again", "jz r1, again\n\tj go"}) + "\n%endsection\n")
 	hasA := make([]bool, ncp)
@@ -392,7 +407,7 @@ func genTemplCase(r *common.Rng) Case {
 	total := ncp
 	if r.Chance(1, 3) {
 		// one more processor on a plain section: with a parameter it gets a copy of it, without it runs it as it is
-		b.WriteString("%section plain1 .romtext iomode:" + mode + "\n\tentry p\np:\n\tinc r0\n\tmov o0, r0\n\tj p\n%endsection\n")
+		b.WriteString("%section plain1 .romtext iomode:" + mode + "\n\tentry p\np:\n\tinc r0\n\t" + withMeta("mov o0, r0", 2, 3) + "\n\tj p\n%endsection\n")
 		cp := "%meta cpdef " + names[ncp] + " romcode:plain1"
 		if r.Bool() {
 			cp += ", first:" + genLiteral(r, rsize)
@@ -546,7 +561,16 @@ func GenCase(r *common.Rng) Case {
 	}
 	cpdefs := []string{}
 	for k := 0; k < ncp; k++ {
-		cpdefs = append(cpdefs, "%meta cpdef "+cpNames[k]+" romcode:"+secs[cpSec[k]].name)
+		d := "%meta cpdef " + cpNames[k] + " romcode:" + secs[cpSec[k]].name
+		if r.Chance(1, 6) {
+			// a user-defined key makes the processor a parameterised one: it runs a re-rendered copy of its section (labels,
+			// line-level metadata and all), and the section it named is removed
+			d = "%meta cpdef " + cpNames[k] + " " + pick(r, []string{"gain:3, ", "first:40, ", "mode_x:r1, "}) + "romcode:" + secs[cpSec[k]].name
+			if r.Bool() {
+				d = "%meta cpdef " + cpNames[k] + " romcode:" + secs[cpSec[k]].name + pick(r, []string{", gain:3", ", first:40", ", tag:0"})
+			}
+		}
+		cpdefs = append(cpdefs, d)
 	}
 
 	// ---- malformed / unfit variants ----
